@@ -10,7 +10,7 @@ func init() {
 	register(&propDef{
 		id: "C16", title: "Every reentrant request completes exactly once, on the requester's turn",
 		technique: "lockset on the request state, who-may-call confinement of completion and continuation invocation, error-edge pairing (register ⇒ deregister on every failure path), sibling agreement PID ↔ grain, CAS-loop guard rule",
-		explanation: "Decides: (1) every field of requestState is accessed under its mutex and complete() is a test-and-set of 'completed' in one critical section (exactly-once completion); (2) completion is reached only from the response handler on the requester's turn (completeRequest ← handleAsyncResponse / grain response handling), from teardown (cancelInFlightRequests, grain teardown) and for pre-completed handles; continuations are invoked only in completeRequest, setCallback (documented late Then on the caller's goroutine) and the grain teardown helper; (3) timeouts and cancels never complete directly: startTimeout and cancel only enqueue an AsyncResponse error through the requester's mailbox (enqueueAsyncError → doReceive / enqueueEnvelope); (4) bookkeeping symmetry for PID and grain: register increments inFlightCount (CAS loop guarded by current >= maxInFlight → error when a limit is set) and blockingCount under mode == StashNonReentrant, deregister decrements both under the same test, and in request / requestName / requestGrain every failure after a successful register reaches deregisterRequestState; (5) the last blocking decrement to zero triggers unstashAll (PID) so stashed messages resume.",
+		explanation: "Decides: (1) every field of requestState is accessed under its mutex and complete() is a test-and-set of 'completed' in one critical section (exactly-once completion); (2) completion is reached only from the response handler on the requester's turn (completeRequest ← handleAsyncResponse / grain response handling), from teardown (cancelInFlightRequests, grain teardown) and for pre-completed handles; continuations are invoked only in completeRequest, setCallback (documented late Then on the caller's goroutine) and the grain teardown helper; (3) timeouts and cancels never complete directly: startTimeout and cancel only enqueue an AsyncResponse error through the requester's mailbox (enqueueAsyncError → doReceive / enqueueEnvelope); (4) bookkeeping symmetry for PID and grain: register increments inFlightCount (CAS loop guarded by current >= maxInFlight → error when a limit is set) and blockingCount under mode == StashNonReentrant, once a counter was incremented (or the in-flight slot taken by the CAS) registration cannot fail any more — a rejected request leaves no count behind —, deregister decrements both under the same test, and in request / requestName / requestGrain every failure after a successful register reaches deregisterRequestState; (5) the last blocking decrement to zero triggers unstashAll (PID) so stashed messages resume.",
 		assumptions: []string{"races between reply, timeout and cancel beyond idempotent completion", "PID.cancelInFlightRequests discards continuations while the grain sibling runs them (noted sibling difference, not part of the statement)"},
 		minObl:     40,
 		run:        runC16,
